@@ -1866,7 +1866,7 @@ theorem ph_smEnabled {c enc auth s} (resume : Bool) (h : Ph c enc .smEnable auth
     simp [step, recv, h2, h3, hh, dispatch, h5, smEnableHandle]
   exact opened_facts (onSmEnabled s resume).1 (onSmEnabled s resume).2 ⟨by simp, by simp⟩ h1 h2 h3 h4 h6 h8 _ e
 
-/-! ### every conforming flow, every cut point of it: `connected` exactly once, by the last element -/
+/-! ### each of the named conforming flows (`Flow`), every cut point of it: `connected` exactly once, by the last element -/
 
 /-- no session is reported before the last event of the list; the last event reports `connected` exactly once, nothing reports
 `disconnected`, and it leaves an authenticated session on a connected socket -/
